@@ -17,8 +17,8 @@
 //!    order; within one script it is the documented chain order.
 //!  * cursor: the next page continues strictly after the last returned object.
 
+use crate::backend::Backend;
 use crate::model::*;
-use ckb_indexer::IndexerHandle;
 use ckb_jsonrpc_types::{
     IndexerCellType, IndexerOrder, IndexerRange, IndexerScriptType, IndexerSearchKey,
     IndexerSearchKeyFilter, IndexerSearchMode, IndexerTx, JsonBytes,
@@ -124,7 +124,11 @@ fn io_u8(t: &IndexerCellType) -> u8 {
 
 /// Calls the real handle; pages with the returned cursor until an empty page comes back
 /// (at most `max_pages` pages).
-pub fn ask(handle: &IndexerHandle, q: &QuerySpec, max_pages: usize) -> Answer {
+///
+/// Rich-indexer: its documentation says "if the number of objects is less than the requested
+/// limit, these are the last page", so a client stops at a short page and so does this loop.
+pub fn ask(handle: &Backend, q: &QuerySpec, max_pages: usize) -> Answer {
+    let stop_at_short_page = handle.is_rich();
     match q.api.as_str() {
         "capacity" => match handle.get_cells_capacity(search_key(q)) {
             Err(e) => Answer::Error(format!("{e}")),
@@ -134,12 +138,14 @@ pub fn ask(handle: &IndexerHandle, q: &QuerySpec, max_pages: usize) -> Answer {
             let mut pages = Vec::new();
             let mut after: Option<JsonBytes> = None;
             loop {
-                match handle.get_cells(search_key(q), order_of(q), q.limit.into(), after.clone()) {
+                let short;
+                match handle.get_cells(search_key(q), order_of(q), q.limit, after.clone()) {
                     Err(e) => return Answer::Error(format!("{e}")),
                     Ok(p) => {
                         if p.objects.is_empty() {
                             break;
                         }
+                        short = stop_at_short_page && p.objects.len() < q.limit as usize;
                         after = Some(p.last_cursor.clone());
                         pages.push(
                             p.objects
@@ -159,7 +165,7 @@ pub fn ask(handle: &IndexerHandle, q: &QuerySpec, max_pages: usize) -> Answer {
                         );
                     }
                 }
-                if pages.len() >= max_pages {
+                if pages.len() >= max_pages || short {
                     break;
                 }
             }
@@ -171,12 +177,14 @@ pub fn ask(handle: &IndexerHandle, q: &QuerySpec, max_pages: usize) -> Answer {
             let mut groups = Vec::new();
             let mut after: Option<JsonBytes> = None;
             loop {
-                match handle.get_transactions(search_key(q), order_of(q), q.limit.into(), after.clone()) {
+                let short;
+                match handle.get_transactions(search_key(q), order_of(q), q.limit, after.clone()) {
                     Err(e) => return Answer::Error(format!("{e}")),
                     Ok(p) => {
                         if p.objects.is_empty() {
                             break;
                         }
+                        short = stop_at_short_page && p.objects.len() < q.limit as usize;
                         after = Some(p.last_cursor.clone());
                         let mut pr = Vec::new();
                         let mut pg = Vec::new();
@@ -201,7 +209,7 @@ pub fn ask(handle: &IndexerHandle, q: &QuerySpec, max_pages: usize) -> Answer {
                         groups.push(pg);
                     }
                 }
-                if rows.len() >= max_pages {
+                if rows.len() >= max_pages || short {
                     break;
                 }
             }
@@ -211,7 +219,7 @@ pub fn ask(handle: &IndexerHandle, q: &QuerySpec, max_pages: usize) -> Answer {
 }
 
 /// the answer as a string, for the before/after comparison of oracle 2
-pub fn raw_answer(handle: &IndexerHandle, _scripts: &[ScriptSpec], q: &QuerySpec) -> String {
+pub fn raw_answer(handle: &Backend, _scripts: &[ScriptSpec], q: &QuerySpec) -> String {
     let a = ask(handle, q, 400);
     let mut h = simcore::Fnv::new();
     let s = format!("{a:?}");
@@ -223,10 +231,10 @@ pub fn raw_answer(handle: &IndexerHandle, _scripts: &[ScriptSpec], q: &QuerySpec
 
 // ------------------------------------------------------------------ naive filter over the model
 
-fn in_range(x: u64, r: &[u64; 2]) -> bool {
+pub fn in_range(x: u64, r: &[u64; 2]) -> bool {
     x >= r[0] && x < r[1]
 }
-fn contains(hay: &[u8], needle: &[u8]) -> bool {
+pub fn contains(hay: &[u8], needle: &[u8]) -> bool {
     needle.is_empty() || hay.windows(needle.len()).any(|w| w == needle)
 }
 
@@ -292,8 +300,8 @@ fn cell_passes(c: &MCell, f: &FilterSpec, type_search: bool, v: Variant, hits: &
     if let Some(d) = &f.output_data {
         let d = unhex(d);
         let pass = match f.output_data_mode.as_deref() {
-            None | Some("prefix") => c.data.starts_with(&d),
-            Some("exact") => c.data == d,
+            None | Some("prefix") => c.data.starts_with(&d[..]),
+            Some("exact") => *c.data == d,
             _ => contains(&c.data, &d),
         };
         note(pass, "filter_output_data_excluded", &mut ok);
@@ -345,8 +353,8 @@ fn naive_cells<'a>(st: &'a MState, q: &QuerySpec, v: Variant, hits: &mut BTreeSe
     out
 }
 
-fn to_cell_ans(c: &MCell, with_data: bool) -> CellAns {
-    (c.tx_hash, c.index, c.output.clone(), if with_data { Some(c.data.clone()) } else { None }, c.bn, c.ti)
+pub fn to_cell_ans(c: &MCell, with_data: bool) -> CellAns {
+    (c.tx_hash, c.index, c.output.clone(), if with_data { Some(c.data.to_vec()) } else { None }, c.bn, c.ti)
 }
 
 fn naive_rows<'a>(st: &'a MState, q: &QuerySpec, v: Variant, hits: &mut BTreeSet<&'static str>) -> Vec<(Vec<u8>, &'a MRow)> {
@@ -387,7 +395,7 @@ fn naive_rows<'a>(st: &'a MState, q: &QuerySpec, v: Variant, hits: &mut BTreeSet
     out
 }
 
-fn to_row_ans(r: &MRow) -> RowAns {
+pub fn to_row_ans(r: &MRow) -> RowAns {
     (r.tx_hash, r.bn, r.ti, r.io_index, r.io_type)
 }
 
@@ -411,29 +419,33 @@ fn expect_error(q: &QuerySpec) -> Option<&'static str> {
     None
 }
 
-fn short(v: &impl std::fmt::Debug) -> String {
+pub fn short(v: &impl std::fmt::Debug) -> String {
     let s = format!("{v:?}");
     if s.len() > 900 { format!("{}…({} chars)", &s[..900], s.len()) } else { s }
 }
 
-fn fmt_cells(v: &[CellAns]) -> String {
+pub fn fmt_cells(v: &[CellAns]) -> String {
     short(&v.iter().map(|c| format!("{}:{}@{}/{}", hex(&c.0[..3]), c.1, c.4, c.5)).collect::<Vec<_>>())
 }
-fn fmt_rows(v: &[RowAns]) -> String {
+pub fn fmt_rows(v: &[RowAns]) -> String {
     short(&v.iter().map(|r| format!("{}@{}/{}/{}{}", hex(&r.0[..3]), r.1, r.2, r.3, if r.4 == 0 { "i" } else { "o" })).collect::<Vec<_>>())
 }
 
-type Fail = (String, String);
+pub type Fail = (String, String);
 
 /// Oracle 1 for one query. Ok(summary for the event log) or Err((class, detail)).
 pub fn check_query(
-    handle: &IndexerHandle,
+    handle: &Backend,
     _scripts: &[ScriptSpec],
     q: &QuerySpec,
     st: &MState,
     tip: Option<(u64, H32)>,
     probes: &mut Counters,
+    dom: crate::Domains,
 ) -> Result<String, Fail> {
+    if handle.is_rich() {
+        return crate::oracle_rich::check_query_rich(handle, q, st, tip, probes, dom);
+    }
     let api_name = match q.api.as_str() {
         "cells" => "get_cells",
         "capacity" => "get_cells_capacity",
@@ -622,7 +634,7 @@ pub fn check_query(
     }
 }
 
-fn note_filters(q: &QuerySpec, hits: &BTreeSet<&'static str>, n: usize, probes: &mut Counters) {
+pub fn note_filters(q: &QuerySpec, hits: &BTreeSet<&'static str>, n: usize, probes: &mut Counters) {
     for h in hits {
         probes.inc(h);
     }
@@ -655,7 +667,7 @@ fn note_filters(q: &QuerySpec, hits: &BTreeSet<&'static str>, n: usize, probes: 
 }
 
 /// every page but the last is full; the pages together hold n objects
-fn check_pages(sizes: Vec<usize>, limit: usize, n: usize, class: &str) -> Result<(), Fail> {
+pub fn check_pages(sizes: Vec<usize>, limit: usize, n: usize, class: &str) -> Result<(), Fail> {
     let total: usize = sizes.iter().sum();
     let mut bad = total != n;
     for (i, s) in sizes.iter().enumerate() {
